@@ -78,7 +78,7 @@ OpResult World::op_make_face(const Op &op) {
     for (auto &ft : op.faults) if (ft.kind.compare(0, 4, "OVR_") == 0) { if (override_fn) override_fn(*f.store, ft); if (ft.kind != "OVR_SILF" && ft.kind != "OVR_SILFPROG" && ft.kind != "OVR_FEAT") any_override = true; else any_synth = true; }
     for (auto &ft : op.faults) if (ft.kind.compare(0, 4, "OVR_") != 0) { f.faulted = true; if (!is_file_fn(ft.tag) && ft.kind != "FILE_TRUNCATED" && ft.kind != "DIR_BITROT") any_content = true; }
     f.pristine_gids = !f.faulted && !any_override;
-    { FontImage tmp; auto sf = f.store->tables.find(mktag("Silf")); if (sf != f.store->tables.end()) tmp.tables[sf->first] = sf->second; f.has_just = font_has_just(tmp); }
+    { FontImage tmp; auto sf = f.store->tables.find(mktag("Silf")); if (sf != f.store->tables.end()) tmp.tables[sf->first] = sf->second; f.has_just = font_has_just(tmp); f.has_just_passes = font_has_just_passes(tmp); }
     if (any_override) f.faulted = f.faulted; // overrides are legal storage formats, not faults
     gr_face *face = 0;
     const size_t alloc_before = alloc_live();
@@ -276,6 +276,24 @@ void World::check_lines(SegObj &s, const char *after) {
     }
 }
 
+// C03/C05 over the later history of a segment: line breaking and justification with a font that has no justification passes
+// neither add nor remove slots, so the slot count and the character<->slot indices stay what gr_make_seg produced
+void World::recheck_counts(SegObj &s, const char *after) {
+    if (s.broken) return;
+    const FaceObj &f = faces[size_t(s.face)];
+    if (f.has_just_passes || f.faulted) return;
+    API("count-recheck", BUDGET_SMALL);
+    const unsigned n = gr_seg_n_slots(s.seg);
+    if (n != s.order.size()) { violation("C03:count-changed-by-history", strf("after %s: gr_seg_n_slots=%u but the segment has %zu slots (font without justification passes)", after, n, s.order.size())); return; }
+    const unsigned nc = gr_seg_n_cinfo(s.seg);
+    for (unsigned i = 0; i < nc; ++i) {
+        const gr_char_info *ci = gr_seg_cinfo(s.seg, i); if (!ci) { violation("C05:cinfo-null-after-history", strf("after %s: gr_seg_cinfo(%u) is NULL", after, i)); return; }
+        int b = gr_cinfo_before(ci), a = gr_cinfo_after(ci);
+        if (b < 0 || a < 0 || unsigned(b) >= n || unsigned(a) >= n) { violation("C05:assoc-out-of-range-after-history", strf("after %s: char %u before=%d after=%d, n_slots=%u", after, i, b, a, n)); return; }
+    }
+    probe("seg:counts-rechecked-after-history");
+}
+
 OpResult World::op_linebreak(const Op &op) {
     OpResult r; r.kind = "skip";
     int si = pick_seg(op.arg(0)); if (si < 0) return r;
@@ -288,6 +306,7 @@ OpResult World::op_linebreak(const Op &op) {
     probe("just:linebreak");
     r.kind = "int"; r.v.push_back(i64(ord));
     check_lines(s, "gr_slot_linebreak_before");
+    recheck_counts(s, "gr_slot_linebreak_before");
     return r;
 }
 
@@ -324,6 +343,7 @@ OpResult World::op_justify(const Op &op) {
     r.kind = "int"; r.v.push_back(fbits(res));
     if (!std::isfinite(res)) violation("C19:width-non-finite", strf("gr_seg_justify returned %g (width=%g flags=%d)", res, width, flags));
     check_lines(s, "gr_seg_justify");
+    recheck_counts(s, "gr_seg_justify");
     if (!s.broken && s.line_starts.size() == 1) {   // every accessor again: justify leaves per-slot justification records behind
         SegView v; v.seg = s.seg; v.n_slots = unsigned(s.order.size()); v.slots = s.order; v.chain_ok = true;
         seg_exercise(s.seg, v, f.face, font);
